@@ -966,7 +966,6 @@ pub fn run(report: &Report, tier: Tier) {
             };
             if findings.is_empty() {
                 report.traces_validated.fetch_add(1, Ordering::Relaxed);
-                report.evaluations.fetch_add(1, Ordering::Relaxed);
                 report.count("real_traces_validated", 1);
                 if attempt > 1 {
                     report.count("real_traces_needing_retry_for_lateness", 1);
